@@ -332,10 +332,11 @@ ARTEFACTS = {
     "g_kb2_mixedq": ["graph", "kb2:lean", "mixedq", "800000", "{out}", "{alpha}"],
     "g_kb1_mixedq": ["graph", "kb1:lean", "mixedq", "800000", "{out}", "{alpha}"],
     "g_kb2_mixed": ["graph", "kb2:lean", "mixed", "3000000", "{out}", "{alpha}"],
-    "tr_noise_kb2": ["trace", "noise", "kb2", "{seed}", "20", "2000", "{out}"],
-    "tr_noise_kb1": ["trace", "noise", "kb1", "{seed}", "20", "2000", "{out}"],
-    "tr_noise_kb2_long": ["trace", "noise", "kb2", "{seed}", "300", "5000", "{out}"],
-    "tr_noise_kb1_long": ["trace", "noise", "kb1", "{seed}", "300", "5000", "{out}"],
+    # recorded calls: the repository's own test/example scenarios followed by seeded random interleavings
+    "tr_noise_kb2": ["trace", "full", "kb2", "{seed}", "20", "2000", os.path.join(SPEC, "scenarios_kb2.json"), "{out}"],
+    "tr_noise_kb1": ["trace", "full", "kb1", "{seed}", "20", "2000", os.path.join(SPEC, "scenarios_kb1.json"), "{out}"],
+    "tr_noise_kb2_long": ["trace", "full", "kb2", "{seed}", "300", "5000", os.path.join(SPEC, "scenarios_kb2.json"), "{out}"],
+    "tr_noise_kb1_long": ["trace", "full", "kb1", "{seed}", "300", "5000", os.path.join(SPEC, "scenarios_kb1.json"), "{out}"],
     "t_words": ["table", "words", "{out}"],
     "t_layouts": ["table", "layouts", "{out}"],
     "t_preds": ["table", "preds", "{out}"],
@@ -386,6 +387,18 @@ JOBS = {
     "trace_kb1": dict(kind="tlc", module="Trace_Keyboard", cfg="Trace_Keyboard.cfg", workers=1, cont=False,
                       jvm=["-Dtlc2.tool.queue.IStateQueue=StateDeque"],
                       env={"TRACE": "art:tr_noise_kb1", "COMP": "kb1", "FGRAPH": "art:g_frame", "SGRAPH": "art:g_set1", "EGRAPH": "art:g_event", "WORDS": "art:t_words"}),
+    "tracespec_kb2": dict(kind="tlc", module="Trace_KeyboardSpec", cfg="Trace_KeyboardSpec.cfg", workers=1, cont=False,
+                          jvm=["-Dtlc2.tool.queue.IStateQueue=StateDeque"],
+                          env={"TRACE": "art:tr_noise_kb2", "COMP": "kb2"}),
+    "tracespec_kb1": dict(kind="tlc", module="Trace_KeyboardSpec", cfg="Trace_KeyboardSpec.cfg", workers=1, cont=False,
+                          jvm=["-Dtlc2.tool.queue.IStateQueue=StateDeque"],
+                          env={"TRACE": "art:tr_noise_kb1", "COMP": "kb1"}),
+    "tracespec_kb2_long": dict(kind="tlc", module="Trace_KeyboardSpec", cfg="Trace_KeyboardSpec.cfg", workers=1, cont=False,
+                               heap="16g", timeout=3600, jvm=["-Dtlc2.tool.queue.IStateQueue=StateDeque"],
+                               env={"TRACE": "art:tr_noise_kb2_long", "COMP": "kb2"}),
+    "tracespec_kb1_long": dict(kind="tlc", module="Trace_KeyboardSpec", cfg="Trace_KeyboardSpec.cfg", workers=1, cont=False,
+                               heap="16g", timeout=3600, jvm=["-Dtlc2.tool.queue.IStateQueue=StateDeque"],
+                               env={"TRACE": "art:tr_noise_kb1_long", "COMP": "kb1"}),
     "trace_kb2_long": dict(kind="tlc", module="Trace_Keyboard", cfg="Trace_Keyboard.cfg", workers=1, heap="16g", timeout=3600, cont=False,
                            jvm=["-Dtlc2.tool.queue.IStateQueue=StateDeque"],
                            env={"TRACE": "art:tr_noise_kb2_long", "COMP": "kb2", "FGRAPH": "art:g_frame", "SGRAPH": "art:g_set2", "EGRAPH": "art:g_event", "WORDS": "art:t_words"}),
@@ -414,13 +427,13 @@ JOBS = {
 # "impl" jobs bind it to the code. impl_count: how many implementation transitions / records /
 # cells TLC validated in those jobs (computed from the artefacts).
 PROPS = {
-    "C01": dict(quick=["mc_set2", "conf_set2", "conf_kb2_bytes", "replay_set2_q"],
-                thorough=["mc_set2", "conf_set2", "conf_kb2_bytes", "replay_set2_t"], graphs=["g_set2", "g_kb2_bytes"]),
-    "C02": dict(quick=["mc_set1", "conf_set1", "conf_kb1_bytes", "replay_set1_q"],
-                thorough=["mc_set1", "conf_set1", "conf_kb1_bytes", "replay_set1_t"], graphs=["g_set1", "g_kb1_bytes"]),
-    "C05": dict(quick=["mc_frame", "conf_words", "replay_words"], thorough=["mc_frame_full", "conf_words", "replay_words"],
+    "C01": dict(quick=["mc_set2", "conf_set2", "conf_kb2_bytes", "replay_set2_q", "tracespec_kb2"],
+                thorough=["mc_set2", "conf_set2", "conf_kb2_bytes", "replay_set2_t", "tracespec_kb2_long"], graphs=["g_set2", "g_kb2_bytes"]),
+    "C02": dict(quick=["mc_set1", "conf_set1", "conf_kb1_bytes", "replay_set1_q", "tracespec_kb1"],
+                thorough=["mc_set1", "conf_set1", "conf_kb1_bytes", "replay_set1_t", "tracespec_kb1_long"], graphs=["g_set1", "g_kb1_bytes"]),
+    "C05": dict(quick=["mc_frame", "conf_words", "replay_words", "tracespec_kb2"], thorough=["mc_frame_full", "conf_words", "replay_words", "tracespec_kb2_long"],
                 tables=["t_words"]),
-    "C06": dict(quick=["mc_frame", "conf_frame", "replay_frame_q"], thorough=["mc_frame_full", "conf_frame", "replay_frame_t"],
+    "C06": dict(quick=["mc_frame", "conf_frame", "replay_frame_q", "tracespec_kb2"], thorough=["mc_frame_full", "conf_frame", "replay_frame_t", "tracespec_kb2_long"],
                 graphs=["g_frame"]),
     "C07": dict(quick=["mc_set1", "mc_set2", "props_scan", "selfreplay_set1_q", "selfreplay_set2_q"],
                 thorough=["mc_set1", "mc_set2", "props_scan", "selfreplay_set1_t", "selfreplay_set2_t"], graphs=["g_set1", "g_set2"]),
@@ -437,10 +450,10 @@ PROPS = {
     "C09": dict(quick=["conf_layouts"], tables=["t_layouts"]),
     "C10": dict(quick=["conf_layouts"], tables=["t_layouts"]),
     "C11": dict(quick=["conf_layouts", "conf_preds"], tables=["t_layouts", "t_preds"]),
-    "C04": dict(quick=["mc_event", "conf_event", "conf_kb2_events", "replay_event_q"],
-                thorough=["mc_event", "conf_event", "conf_kb2_events", "replay_event_t"], graphs=["g_event", "g_kb2_events"]),
-    "C14": dict(quick=["mc_event", "conf_event", "conf_kb2_events", "replay_event_q"],
-                thorough=["mc_event", "conf_event", "conf_kb2_events", "replay_event_t"], graphs=["g_event", "g_kb2_events"]),
+    "C04": dict(quick=["mc_event", "conf_event", "conf_kb2_events", "replay_event_q", "tracespec_kb2"],
+                thorough=["mc_event", "conf_event", "conf_kb2_events", "replay_event_t", "tracespec_kb2_long"], graphs=["g_event", "g_kb2_events"]),
+    "C14": dict(quick=["mc_event", "conf_event", "conf_kb2_events", "replay_event_q", "tracespec_kb2"],
+                thorough=["mc_event", "conf_event", "conf_kb2_events", "replay_event_t", "tracespec_kb2_long"], graphs=["g_event", "g_kb2_events"]),
     "C08": dict(quick=["mc_frame", "conf_frame", "conf_words", "conf_set1", "conf_set2", "conf_kb1_bytes",
                        "conf_kb2_bytes", "conf_event", "conf_kb2_events", "conf_layouts"],
                 graphs=["g_frame", "g_set1", "g_set2", "g_kb1_bytes", "g_kb2_bytes", "g_event", "g_kb2_events"],
@@ -468,6 +481,14 @@ def canon_key(rec):
         obs = rec.get("observed")
         obs_s = "/".join(str(x) for x in obs) if isinstance(obs, list) and obs and obs[0] != "panic" else "panic"
         return "io comp=%s ctx=%s input=%s observed=%s" % (rec.get("comp"), ctx_s, inp_s, obs_s)
+    if k == "trace-spec" and isinstance(rec.get("byte"), int) and rec["byte"] >= 0 and rec.get("prop") in ("C01", "C02"):
+        obs = rec.get("observed")
+        obs_s = "/".join(str(x) for x in obs) if obs and obs[0] != "panic" else "panic"
+        return "io comp=%s ctx=%s input=%s observed=%s" % (rec.get("comp"), rec.get("ctx"), hexb(rec["byte"]), obs_s)
+    if k == "trace-spec":
+        return "trace-spec comp=%s ctx=%s input=%s observed=%s query=%s" % (
+            rec.get("comp"), rec.get("ctx"), json.dumps(rec.get("input"), separators=(",", ":")),
+            json.dumps(rec.get("observed"), separators=(",", ":")), json.dumps(rec.get("observed_query"), separators=(",", ":")))
     if k == "self-replay":
         return "self-replay comp=%s state=%s input=%s observed=%s" % (
             rec.get("comp"), rec.get("state"), json.dumps(rec.get("input"), separators=(",", ":")),
